@@ -525,6 +525,31 @@ func c13DrawLayout(rt *rapid.T, ch c13Change, idx int, ops map[string]bool) c13L
 	return lo
 }
 
+// c13RawStringOnContextLines reports whether a raw string of the patch body
+// is continued on a context line (a line with a blank as its prefix).
+func c13RawStringOnContextLines(patch string) bool {
+	inBody, inRaw := false, false
+	ats := 0
+	for _, l := range strings.Split(patch, "\n") {
+		if strings.HasPrefix(l, "@") {
+			ats++
+			inBody = ats%2 == 0
+			inRaw = false
+			continue
+		}
+		if !inBody || strings.HasPrefix(strings.TrimSpace(l), "#") && !inRaw {
+			continue
+		}
+		if inRaw && strings.HasPrefix(l, " ") {
+			return true
+		}
+		if strings.Count(l, "`")%2 == 1 {
+			inRaw = !inRaw
+		}
+	}
+	return false
+}
+
 func evalC13(cs *c13Case) (sig, msg string, changed bool) {
 	rb := run.API("p.patch", []byte(cs.Base), "f.go", []byte(cs.File))
 	rv := run.API("p.patch", []byte(cs.Variant), "f.go", []byte(cs.File))
@@ -554,6 +579,9 @@ func evalC13(cs *c13Case) (sig, msg string, changed bool) {
 	}
 	changed = string(rb.Out) != cs.File
 	if d := ref.FirstDifference(bt, vt, ref.Output); d != nil {
+		if c13RawStringOnContextLines(cs.Base) || c13RawStringOnContextLines(cs.Variant) {
+			return "results-differ:raw-string-continued-on-a-context-line", fmt.Sprintf("base and variant give different results: %s\n%s\nfile:\n%s", d.String(), show(), trunc(cs.File, 1500)), changed
+		}
 		return "results-differ", fmt.Sprintf("base and variant give different results: %s\n%s\nfile:\n%s", d.String(), show(), trunc(cs.File, 1500)), changed
 	}
 	if cs.CLI && changed {
@@ -647,6 +675,12 @@ var c13SeveralDots = []struct {
 		Holes: map[string]string{"x": "expression"},
 		Body:  []c13Line{{Op: '-', Text: "sdfoo(x, x, ...)"}, {Op: '+', Text: "sdfoo(x, 1234567)"}, {Op: ' ', Text: "sdbar(...)"}, {Op: '+', Text: "sdbaz(...)"}},
 		File:  "package sd\n\nfunc f(k int) {\n\tsdfoo(k, k, 1, 2)\n\tsdbar(9)\n}\n",
+	},
+	{
+		// a raw string that goes on over a line break, on unchanged lines
+		Holes: map[string]string{},
+		Body:  []c13Line{{Op: ' ', Text: "sdraw(`a"}, {Op: ' ', Text: "b`)"}, {Op: '-', Text: "sdx()"}, {Op: '+', Text: "sdy()"}},
+		File:  "package sd\n\nfunc f() {\n\tsdraw(`a\nb`)\n\tsdx()\n}\n\nfunc g() {\n\tsdraw(`a\n b`)\n\tsdx()\n}\n",
 	},
 	{
 		Holes: map[string]string{"k": "expression"},
